@@ -7,11 +7,12 @@ def splitPair (s : String) : Option (String × String) :=
   | [a, b] => some (a, b)
   | _ => none
 
+/-- `clock/type` → (clock reading, message type). -/
 def parseCall (s : String) : Option (Int × Nat) := do
   let (a, b) ← splitPair s
   let c ← a.toInt?
   let t ← b.toNat?
-  pure (c, yieldOf t)
+  pure (c, t)
 
 def parseSection (s : String) : Option (Int × Bool) := do
   let (a, b) ← splitPair s
@@ -34,13 +35,13 @@ def showNats (xs : List Nat) : String :=
 def handle (line : String) : String :=
   match words line with
   | "gen" :: calls => match calls.mapM parseCall with
-    | some cs => showNats (genIds 0 cs)
+    | some cs => showNats (genIdsT 0 cs)          -- the code as translated from the source
     | none => "bad-op"
   | "genold" :: calls => match calls.mapM parseCall with
-    | some cs => showNats (genIdsWith genNextOld 0 cs)
+    | some cs => showNats (genIdsWith genNextOld 0 (cs.map fun p => (p.1, yieldOf p.2)))
     | none => "bad-op"
   | ["mid", n, t] => match n.toNat?, t.toNat? with
-    | some n, some t => toString (newMessageIDNano n t)
+    | some n, some t => toString (Facts.C08.newMessageIDNanoT n t).toNat
     | _, _ => "bad-op"
   | ["idinfo", i] => match i.toNat? with
     | some id => s!"{idType id} {idTime id}"
@@ -50,7 +51,7 @@ def handle (line : String) : String :=
     | none => "bad-op"
   | "conn" :: secs => match secs.mapM parseSection with
     | some ss =>
-      let out := connRun {} ss
+      let out := connRunT {} ss                   -- translated nextMsgSeq + translated New
       if out.isEmpty then "-" else " ".intercalate (out.map fun (i, s) => s!"{i}/{s}")
     | none => "bad-op"
   | "holds" :: obs => match obs.mapM parseObs with
